@@ -74,8 +74,13 @@ def gen(tier, rnd):
         u = bytes(rnd.choice([c for c in range(256) if c != 58]) for _ in range(rnd.randint(0, 12)))
         if i % 17 == 0:
             u = u + b':' + u
-        p = bytes(rnd.choice([58, 58, 0, 255] + list(range(32, 127))) for _ in range(rnd.randint(0, 12)))
+        p = bytes(rnd.choice([58, 58, 0, 255, 10, 13] + list(range(256))) for _ in range(rnd.randint(0, 12)))
         lines.append('basic %s %s' % (hx(u), hx(p)))
+    # every byte value inside the password, and (':' excepted) inside the user: "all user names without ':' and all passwords"
+    for b in range(256):
+        lines.append('basic %s %s' % (hx(b'user' if b == 58 else b'us' + bytes([b]) + b'er'), hx(b'pa' + bytes([b]) + b'ss')))
+        lines.append('basic %s %s' % (hx(b'u'), hx(bytes([b]))))
+        lines.append('basic %s %s' % (hx(b'u'), hx(bytes([b, b]) + b'x' + bytes([b]))))
     for i in range(nlong // 2):
         v = rnd.choice([b'Basic ', b'Basic', b'Bearer x', b'basic QQ==', b'Basic QQ==', b'Basic !!!!', b'Basic QUJD', b'Basic QTpC', b''])
         if i % 3 == 0:
